@@ -112,6 +112,7 @@ class Sched(object):
         self.n_steps  = 0
         self.on_quiescent = None        # callback: may enable more / set term
         self.log      = list()          # schedule log: thread names
+        self.stuck    = list()          # (thread, where) at a deadlock
 
     # ------------------------------------------------------------------
     # called from controlled threads
@@ -137,6 +138,10 @@ class Sched(object):
         me = self.me()
         if me is None:
             return                    # uncontrolled thread (the explorer)
+        if self.aborting:
+            # the execution is over; code under test which swallowed the
+            # first Abort (a bare `except:`) gets it again at every point
+            raise Abort()
         if step:
             self.bump(me)
         me.state = state
@@ -222,6 +227,7 @@ class Sched(object):
                     live = [t for t in self.threads
                             if t.state != DONE and not t.daemon]
                     if live:
+                        self.stuck = [(t.name, t.where) for t in live]
                         return 'deadlock'
                     return 'done'
                 if len(enabled) == 1:
